@@ -207,6 +207,40 @@ impl Lattice {
     }
 }
 
+#[cfg(feature = "verif")]
+impl Lattice {
+    /// Read-only copy of all nodes of the lattice (verification hook)
+    pub fn verif_dump(&self) -> crate::verif::VerifLattice {
+        use crate::analysis::node::LatticeNode;
+        let mut ends = Vec::with_capacity(self.size);
+        for b in 0..self.size {
+            let mut row = Vec::new();
+            if b > 0 {
+                for (i, n) in self.ends_full[b].iter().enumerate() {
+                    let v = &self.ends[b][i];
+                    let p = self.indices[b][i];
+                    row.push(crate::verif::VerifNode {
+                        begin: n.begin(),
+                        end: n.end(),
+                        left_id: n.left_id(),
+                        right_id: n.right_id(),
+                        cost: n.cost(),
+                        word_id: n.word_id().as_raw(),
+                        total_cost: v.total_cost,
+                        prev: (p.end(), p.index()),
+                    });
+                }
+            }
+            ends.push(row);
+        }
+        crate::verif::VerifLattice {
+            size: self.size,
+            ends,
+            eos: self.eos.map(|(p, c)| ((p.end(), p.index()), c)),
+        }
+    }
+}
+
 impl Lattice {
     pub fn dump<W: Write>(
         &self,
